@@ -4,9 +4,9 @@ META = dict(
     explanation="Leaf helpers only: vset/vmove (cursor stays on an existing result, --cycle and layout direction), selectItem/deselectItem/toggleItem "
                 "(multi-select rules under every operation sequence up to the bound), delChar. The action dispatcher (doAction closure) is outside.",
     functions=["fzf.(*Terminal).vset", "fzf.(*Terminal).vmove", "fzf.(*Terminal).currentItem", "fzf.(*Terminal).selectItem", "fzf.(*Terminal).deselectItem",
-               "fzf.(*Terminal).toggleItem", "fzf.(*Terminal).delChar", "util.Constrain"],
+               "fzf.(*Terminal).toggleItem", "fzf.(*Terminal).delChar", "fzf.(*Terminal).UpdateList (selection handling)", "util.Constrain"],
     outside=["the editing / navigation / select-all logic inside the doAction closure (about 1000 lines, ~40 captured variables, calls into the renderer)",
-             "UpdateList's selection handling (event channel, key map)", "window heights, paging, --track"],
+             "window heights, paging, --track"],
     models=["time.Now stub returning strictly increasing instants"],
     assumptions=[],
 )
@@ -22,4 +22,5 @@ def suites(tier):
     jobs.append(dict(id=jid("sel", cfg), func="zzH_C09_sel", cfg=cfg))
     cfg = dict(nmax=3 if q else 5)
     jobs.append(dict(id=jid("del", cfg), func="zzH_C09_del", cfg=cfg))
+    jobs.append(dict(id="update", func="zzH_C09_update", cfg={}))
     return [src_suite("src", jobs)]
